@@ -82,6 +82,19 @@ func (in *objIndex) UnmarshalJSON(data []byte) error {
 		return err
 	}
 
+	// a malformed index must be reported, not make us panic later
+	if tmp.Fields == nil {
+		tmp.Fields = make(map[string]*fieldIndex)
+	}
+	if tmp.ObjectIds == nil {
+		tmp.ObjectIds = make(map[uint64]string)
+	}
+	for name, fi := range tmp.Fields {
+		if fi == nil {
+			return fmt.Errorf("%w: null index for field %s", ErrBadIndexEntry, name)
+		}
+	}
+
 	in.i = 0
 	in.Fields = tmp.Fields
 	in.ObjectIds = tmp.ObjectIds
